@@ -899,6 +899,7 @@ def install(it):
                 return (None, err('error parsing regexp: %s' % e))
         return (Ptr(Box(Opaque('regexp', pat))), None)
     M['regexp.Compile'] = m_rxCompile
+    M['regexp.MustCompile'] = lambda it_, a: m_rxCompile(it_, a)[0]
     def rx_match(pat, s):
         if isinstance(pat, bytes) and isinstance(s, bytes):
             return re.search(pat.decode('utf-8', 'replace'), s.decode('utf-8', 'replace')) is not None
